@@ -222,6 +222,10 @@ class BaseFileLock(abc.ABC):
         if not self.is_locked:
             return
 
+        # Number of levels of the thread lock to release: a forced
+        # release has to undo every nested acquire of a reentrant lock
+        levels = max(self._lock_counter, 1) if force else 1
+
         self._decrement_lock_counter()
 
         if self._lock_counter == 0 or force:
@@ -238,7 +242,8 @@ class BaseFileLock(abc.ABC):
                 _logger.info('Lock %s released on %s', lid, fn)
 
         try:
-            self._thread_lock.release()
+            for _ in range(levels):
+                self._thread_lock.release()
         except RuntimeError:  # not reentrant and already unlocked
             pass
 
